@@ -258,6 +258,33 @@ def build(case, y):
     return model, obj
 
 
+def companion(case, model):
+    """A second loss object on the SAME model object (another data set fitted with the same model): other parameters, other
+    initial state, other observation times.  Whatever it writes into the shared model must not leak into the first object's
+    results, because every evaluation of a loss object is documented to be a function of its own arguments and data."""
+    import pygom
+    m, su = case["model"], case["setup"]
+    names = ir.state_names(m)
+    # parameters outside the first object's target_param live in the shared model by design: the companion leaves them alone
+    tset = set(case["target_param"] or m["params"])
+    theta = [S.sig(v * 1.7, 4) if q in tset else v for q, v in zip(m["params"], su["theta"])]
+    x0 = [S.sig(v * 0.6, 4) for v in su["x0"]]
+    t0 = su["t0"] + 0.25
+    t = np.array([t0 + 0.5, t0 + 1.0, t0 + 1.75])
+    return pygom.SquareLoss(theta, model, x0, t0, t, np.ones(3), names[-1])
+
+
+def interleave(obj, methods, between):
+    """Make every listed method of `obj` be preceded by between() - the other user of the shared model doing its work."""
+    for name in methods:
+        inner = getattr(obj, name)
+
+        def wrapped(*a, _inner=inner, **k):
+            between()
+            return _inner(*a, **k)
+        setattr(obj, name, wrapped)
+
+
 def full_theta(case, free_values):
     """Full parameter vector when the free parameters (target_param order) take free_values."""
     m, su = case["model"], case["setup"]
